@@ -1,11 +1,16 @@
 //! Runtime-type properties of cglue, checked by generated histories against std models.
 //! usage: rtprops <C06|C07|C10|...> [--tier quick|thorough] [--seed N] [--out file] [--known keys] [--replay file]
 use verifkit::{Args, Ctx};
+// cglue's expansion of borrowed wrapped returns names `crate::trait_group`
+#[allow(unused_imports)]
+pub use cglue::*;
 
 #[global_allocator]
 static A: verifkit::alloc::Tracking = verifkit::alloc::Tracking;
 
+mod c0607;
 mod c10;
+mod fam;
 mod c11;
 mod c12;
 mod c13;
@@ -19,6 +24,8 @@ fn main() {
     let args = Args::parse();
     let ctx = Ctx::new(args);
     let code = match ctx.args.prop.as_str() {
+        "C06" => c0607::run(&ctx, "C06"),
+        "C07" => c0607::run(&ctx, "C07"),
         "C10" => c10::run(&ctx),
         "C11" => c11::run(&ctx),
         "C12" => c12::run(&ctx),
